@@ -361,7 +361,8 @@ def r8_casting_emitter(ctx, rule="C04.R8"):
     body = f.body
     exits = set(body.exits())
     for variant, instr in (("BuiltIn", "Cast"), ("FixedLengthString", "FixLength")):
-        tgt = sw.arms.get(variant)
+        # one `match`, or a chain of `if let` (one switch per variant)
+        tgt = next((s2.arms[variant] for s2 in sorted(sws, key=lambda s2: -len(s2.arms)) if variant in s2.arms), None)
         if tgt is None:
             ctx.violation(rule, "%s:%s-arm" % (rule, variant), f.loc,
                           "the casting emitter has no arm for a %s target" % variant, {})
